@@ -37,13 +37,15 @@ def impl_oracle(c):
     o = c["obs"]
     kind = J.crash_kind(o)
     if kind == "no-return":
+        if c["op"] == "deep":
+            return "no-return", "Unmarshal / ToJSON / DecodeSeries did not return within the watchdog's limit on %s" % c.get("src")
         return "no-return", "%s did not return (watchdog): %s" % (c["op"], o["crash"][:160])
     if kind == "panic":
         return "panic", "%s panicked: %s" % (c["op"], o["crash"][:200])
     op = c["op"]
     if op == "file":
         return J.file_oracle(c)
-    if op in ("script", "rstream", "rseries", "reuse", "targets", "lexfn", "raw"):
+    if op in ("script", "rstream", "rseries", "reuse", "targets", "lexfn", "raw", "deep"):
         return J.usage_oracle(c)
     if op == "rawpos" and o.get("note"):
         return "position", o["note"]
@@ -155,7 +157,9 @@ def run(ck):
              "pointer, a map by value, a filled value, *chan; every token kind and a 4-byte rune across byte 4096 "
              "of the input (bufio's buffer), tokens longer than it, nesting 1000 deep; every string up to length 4 "
              "over a \" \\ space LF x 4 and command lines ending inside a quote or an escape; the raw tokens of "
-             "every raw case must spell the input. "
+             "every raw case must spell the input. Deep nesting: l-1, l, l+1, 2l+1 levels of '[' and of '{a:' for every "
+             "integer l the source names (up to 25000) and for 1000 / 10001 / 20001, closed, not closed, half closed, "
+             "through Unmarshal, ToJSON and DecodeSeries under the watchdog (implementation only). "
              "A case is trivial if its input is empty; distinct = distinct (operation, input bytes).",
         assumptions=["the io.Reader given to the lexer does not fail (inputs are byte slices / strings)",
                      "strconv.ParseFloat terminates and returns a value or an error",
